@@ -593,3 +593,7 @@ mod tests {
             .quickcheck(property as fn(PagePathCase) -> bool);
     }
 }
+
+#[cfg(kani)]
+#[path = "/verif/units/kani/core_page_id.rs"]
+mod verif_kani;
